@@ -5,6 +5,7 @@ func init() {
 		ID:    "C06",
 		Title: "Writes are all-or-nothing, removals are total, and remove+add updates a document",
 		Harnesses: []*HarnessSpec{
+			{Name: "H_C06_either_or", Tier: "quick", What: "hybrid Add / AddWithID with inputs where it is not obvious whether the library accepts them (NaN / +-Inf / 1e300 float metadata, MinInt64 / MaxInt64, empty key and value, nil value, NaN / Inf vector components, empty text + nil metadata, no vector): whatever Add answers it stands by — refused: every battery answer unchanged and Remove is an error; accepted: findable through every modality supplied, by every metadata key, removable exactly once", Covers: []string{"refused", "accepted"}},
 			{Name: "H_C06_failed_add", Tier: "quick", What: "hybrid(flat, text, metadata) Add / AddWithID failing in the 1st (wrong dimension; zero vector under cosine), 2nd (TextIndex wrapper failing on demand) or 3rd sub-index (unsupported value type before / after supported keys): a battery of 11 searches through the hybrid index and each sub-index answers exactly as before; the index keeps working", Covers: []string{"ran"}},
 			{Name: "H_C06_ids", Tier: "quick", What: "node ids: one inductive step from an arbitrary uint32 counter (three constructors, strictly increasing); hybrid Add on concrete counters incl. a failed Add in between", Covers: []string{"inductive-step", "hybrid"}},
 			{Name: "H_C06_remove", Tier: "quick", What: "5 documents with every subset of modalities: Remove(id) makes it unfindable in all modalities before and after Flush; second Remove and Remove(unknown) fail and change nothing", Covers: []string{"removed", "unknown"}},
